@@ -1,5 +1,5 @@
 (* Properties/C02.v — annotations reach exactly the ancestors; records stay direct (C02) *)
-From HpoV Require Import Gen.Consts Model.Base Model.Group Model.Onto Model.Dump Run.World Run.C02 Proofs.C02P Proofs.ClosureP Proofs.LinkP Proofs.RecordsP Proofs.GroupP Proofs.DistP Proofs.AcyclicP Proofs.AnnotP Proofs.BuilderAnnotP Model.Script.
+From HpoV Require Import Gen.Consts Model.Base Model.Group Model.Onto Model.Dump Run.World Run.C02 Proofs.C02P Proofs.ClosureP Proofs.LinkP Proofs.RecordsP Proofs.GroupP Proofs.DistP Proofs.AcyclicP Proofs.AnnotP Proofs.BuilderAnnotP Model.Script Proofs.AllPathsP.
 
 (* For every observation that passes the executable statement (evaluated by the check on the real
    crate's observation of every generated ontology, for each of the three kinds separately): *)
@@ -88,6 +88,14 @@ Theorem C02_builder_annotations_exact : forall icf s codes o, run_script icf s =
   acyclic (o_arena o) /\ ann_ok o.
 Proof. exact run_script_ann_ok. Qed.
 
+(* EACH CONSTRUCTION PATH ([constructed], Proofs/AllPathsP.v): every term carries exactly the ids of the
+   records with a direct fact at the term or at a descendant, record ids are distinct, and every
+   direct term of every record is a term of the ontology *)
+Theorem C02_every_constructed_ontology : forall icf o, constructed icf o ->
+  ann_ok o /\ (forall k, NoDup (map a_id (o_records k o))) /\
+  (forall k r d, In r (o_records k o) -> In d (a_hpos r) -> In d (ar_keys (o_arena o))).
+Proof. exact constructed_annotations. Qed.
+
 Print Assumptions C02_inherited_exact.
 Print Assumptions C02_records_wellformed.
 Print Assumptions C02_linked_ids_resolve.
@@ -99,3 +107,4 @@ Print Assumptions C02_model_annotate_is_one_propagation.
 Print Assumptions C02_propagation_hypotheses_hold.
 Print Assumptions C02_model_record_phase.
 Print Assumptions C02_builder_annotations_exact.
+Print Assumptions C02_every_constructed_ontology.
